@@ -222,4 +222,62 @@ class TerminalSize(Part):
             ctx.nontrivial = True
 
 
-PARTS = [Trees(), TerminalSize()]
+class WideTables(Part):
+    name = "wide-tables"
+    rule = ("consoles 257..900 cells wide (a wide terminal, a log file): tables of 2-3 columns whose cells are long wrappable sentences (150..600 cells, lengths tied or "
+            "nearly tied) beside 1-2 narrow columns, so that the columns have to be collapsed from widths above 256; optionally inside a Panel; every line of "
+            "console.render() and of what print(crop=False) writes is at most W cells; non-trivial = two long cells within 40 cells of each other")
+    budget = {"quick": (8, 300), "thorough": (16, 3000)}
+    chunk = 150
+
+    def strategy(self, tier):
+        ln = st.one_of(st.integers(150, 600), st.sampled_from([257, 258, 280, 300, 320, 512]))
+        return st.builds(lambda longs, tie, narrow, W, expand, panel, order: {"longs": [longs[0]] + ([longs[0] + tie] if tie is not None else [longs[1]]) + longs[2:], "narrow": narrow, "w": W, "expand": expand, "panel": panel, "order": order},
+                         st.lists(ln, min_size=2, max_size=3), st.one_of(st.none(), st.integers(-40, 40)), st.lists(st.sampled_from(["id", "ok", "7", "n/a"]), min_size=1, max_size=2),
+                         st.one_of(st.integers(257, 900), st.integers(257, 420)), st.booleans(), st.booleans(), st.booleans())
+
+    def check(self, spec, ctx):
+        from rich.table import Table
+        from rich.panel import Panel
+        from rich.console import Console
+        from ..oracles import sgr as SGR
+
+        W = spec["w"]
+        words = ["alpha", "be", "gamma", "delta", "epsilon", "zeta", "eta", "theta", "iota", "kappa"]
+
+        def sentence(n):
+            out = []
+            i = 0
+            while len(" ".join(out)) < n:
+                out.append(words[i % len(words)])
+                i += 1
+            return " ".join(out)[:n].rstrip() or "x"
+
+        def make():
+            t = Table(expand=spec["expand"])
+            cells = [sentence(max(1, n)) for n in spec["longs"]] + list(spec["narrow"])
+            if spec["order"]:
+                cells = cells[::-1]
+            for k in range(len(cells)):
+                t.add_column("c%d" % k)
+            t.add_row(*cells)
+            return Panel(t) if spec["panel"] else t
+
+        con = sut(Console, file=io.StringIO(), width=W, height=25, color_system=None, force_terminal=False, legacy_windows=False, _environ={})
+        segs = sut(lambda: list(con.render(make(), con.options)))
+        for i, ln in enumerate("".join(s.text for s in segs if not s.is_control).split("\n")):
+            if OC.width(ln) > W:
+                ctx.violation("width", "C01/width/wide-table", "line %d is %d cells wide with %d available: table cells of %r + %r cells%s" % (i, OC.width(ln), W, spec["longs"], spec["narrow"], " in a panel" if spec["panel"] else ""))
+                return
+        sut(con.print, make(), crop=False)
+        for i, ln in enumerate(SGR.visible(con.file.getvalue()).split("\n")):
+            if OC.width(ln) > W:
+                ctx.violation("width", "C01/width/written-wide-table", "print(crop=False) wrote line %d with %d cells on a console %d wide: table cells of %r + %r cells" % (i, OC.width(ln), W, spec["longs"], spec["narrow"]))
+                return
+        ls = sorted(spec["longs"])
+        if any(b - a <= 40 for a, b in zip(ls, ls[1:])):
+            ctx.nontrivial = True
+        ctx.cls("must-collapse" if sum(spec["longs"]) > W else "fits")
+
+
+PARTS = [Trees(), TerminalSize(), WideTables()]
